@@ -4,3 +4,4 @@ use vstd::prelude::*;
 use vstd::std_specs::cmp::*;
 use core::cmp::Ordering;
 use std::num::NonZeroU32;
+use core::str::FromStr;
